@@ -706,7 +706,10 @@ impl<'a> GeneratorState<'a> {
                     if !high_byte {
                         if let ExprType::Absolute(varname, eight_bits, _) = &left {
                             let v = self.compiler_state.get_variable(varname);
-                            if v.var_type == VariableType::Short && !eight_bits {
+                            if (v.var_type == VariableType::Short
+                                || v.var_type == VariableType::ShortPtr)
+                                && !eight_bits
+                            {
                                 if let ExprType::Immediate(value) = right {
                                     if value < 8 {
                                         return self.generate_shift_16bits(&left, op, &right, pos);
@@ -714,7 +717,7 @@ impl<'a> GeneratorState<'a> {
                                 }
                             }
                         }
-                        if let ExprType::AbsoluteX(varname) = &left {
+                        if let ExprType::AbsoluteX(varname) | ExprType::AbsoluteY(varname) = &left {
                             let v = self.compiler_state.get_variable(varname);
                             if v.var_type == VariableType::ShortPtr {
                                 if let ExprType::Immediate(value) = right {
